@@ -170,7 +170,7 @@ def pbox_arrays(spec):
 def gen_cases(ctx):
     rng = ctx.rng
     cases = []
-    cap_cuts = ctx.scale(330, 1600)
+    cap_cuts = ctx.scale(300, 1600)
 
     def rand_input(kind):
         if kind == "I":
